@@ -136,7 +136,7 @@ def generate(rng, tier):
         return case
     kinds = {"pickle": ["bool", "int", "float", "str", "lstr", "date", "datetime", "obool", "ustr", "timedelta", "float32", "int32", "obj", "uint64"],
              "npz": ["bool", "int", "float", "str", "date", "datetime", "obool", "ustr", "timedelta", "float32", "uint64"],
-             "parquet": ["bool", "int", "float", "str", "date", "datetime", "uint64", "timedelta"],
+             "parquet": ["bool", "int", "float", "str", "date", "datetime", "uint64", "timedelta", "int32", "float32"],
              "csv": ["bool", "int", "float", "str", "date", "datetime", "float32"],
              "json": ["bool", "int", "float", "str", "obool", "float32"]}[fmt]
     ncol = rng.randint(2, 5)
@@ -345,6 +345,12 @@ def execute(case):
             else:
                 same = k0 == k1 if k0 in ("bool", "int", "float", "string", "date", "datetime") else True
                 if k0 == "datetime" and k1 == "datetime": same = True
+            if same and fmt == "parquet" and [s_[1] for s_ in spec if s_[0] == n0][0] in ("int32", "float32"):
+                d0_, d1_ = np.asarray(dict.__getitem__(df, n0)).dtype, np.asarray(dict.__getitem__(back, n1)).dtype
+                if d0_ != d1_ and d1_ in (np.dtype("int64"), np.dtype("float64")):
+                    # mechanism key of a recorded finding (known_findings.json)
+                    res.violate("parquet:dtype-widened:narrow-numeric-column", f"column {n0}: {d0_} came back {d1_}; {ctx}")
+                    return res.dict()
             if not same:
                 feat2 = "string-with-na" if k0 == "string" and any(c == canon.NA for c in pre[n0]) else k0
                 res.violate(f"roundtrip:dtype-differs:{fmt}:{feat2}", f"column {n0}: dtype {np.asarray(dict.__getitem__(df, n0)).dtype} came back as {np.asarray(dict.__getitem__(back, n1)).dtype}; {ctx}")
